@@ -93,8 +93,11 @@ let () =
       let strip k = (* the server strips "table:" from every key *)
         let rec drop i l = if i = 0 then l else (match l with [] -> [] | _ :: r -> drop (i - 1) r) in
         drop (List.length tb + 1) k in
-      let items = List.map strip (List.concat mps) in
+      let items = List.map strip (List.concat (List.map fst mps)) in
       let items = List.map bytes_of_hex (List.sort compare (List.map hex_of_bytes items)) in
-      Printf.printf "%s\t%scalls=%d set=%s perpart=ok\n" id
+      let cur_str mc = if mc = [] then "-" else
+        String.concat "," (List.map (fun (p, c) -> string_of_int (int_of_nat p) ^ ":" ^ hex_of_bytes c) mc) in
+      Printf.printf "%s\t%scalls=%d set=%s perpart=ok cursors=%s\n" id
         (match st with Done -> "" | OutOfFuel -> "NONTERM " | _ -> "err ") (List.length mps) (hl_print items)
+        (String.concat "|" (List.map (fun (_, mc) -> cur_str mc) mps))
     | _ -> ())
